@@ -102,6 +102,7 @@ func rulesC19(c *Ctx) {
 	ruleCachedDelegates(c)
 	ruleGetEntriesLookups(c)
 	ruleStatusCompare(c)
+	ruleStatusOptions(c)
 }
 
 func ruleRegistryFIB(c *Ctx, entries []regEntry) {
